@@ -264,11 +264,7 @@ partial def replaceFirst (pat rep : Bytes) (xs : Bytes) : Bytes :=
   | some (a, r) => a ++ rep ++ r
   | none => xs
 
-def evalFs (p : Pending) (glob : Oracle) (obsToks : List String) : String :=
-  let ora : Oracle := { urls := glob.urls ++ p.ora.urls, pages := glob.pages ++ p.ora.pages, misc := p.ora.misc }
-  let env := ora.env
-  let root := (p.toks.findSome? fun t => match fields t with | ["root", r] => some (unhex r) | _ => none).getD []
-  let evs : List Event := p.toks.filterMap fun t => match fields t with | ["root", _] => none | _ => parseEvent t
+def fsEnvOf (ora : Oracle) (root : Bytes) : FsHandler.FsEnv :=
   let entries : List (List Bytes × Fs.Kind × Nat × Nat) := ora.misc.filterMap fun f => match f with
     | ["fs", path, "d", _] => some (locOf (unhex path), .dir, 0, 0)
     | ["fs", path, "f", size, seed] => some (locOf (unhex path), .file, toNat size, toNat seed)
@@ -280,17 +276,23 @@ def evalFs (p : Pending) (glob : Oracle) (obsToks : List String) : String :=
     | ["lst", path, b] => some (locOf (unhex path), unhex b) | _ => none
   let t1 := "<title>/</title>".toUTF8.toList
   let h1 := "<h1>/</h1>".toUTF8.toList
-  let fe : FsHandler.FsEnv :=
-    { root := root, tree := tree,
-      content := fun loc => match entries.find? (·.1 == loc) with | some (_, _, sz, sd) => patternBytes sz sd | none => [],
-      mime := fun loc => ((mimes.find? (·.1 == loc)).map (·.2)).getD MISS,
-      listing := fun loc decoded =>
-        match lsts.find? (·.1 == loc) with
-        | none => MISS
-        | some (_, b) =>
-          let esc := C07.htmlEscape decoded
-          let b := replaceFirst t1 ("<title>/".toUTF8.toList ++ esc ++ "</title>".toUTF8.toList) b
-          replaceFirst h1 ("<h1>/".toUTF8.toList ++ esc ++ "</h1>".toUTF8.toList) b }
+  { root := root, tree := tree,
+    content := fun loc => match entries.find? (·.1 == loc) with | some (_, _, sz, sd) => patternBytes sz sd | none => [],
+    mime := fun loc => ((mimes.find? (·.1 == loc)).map (·.2)).getD MISS,
+    listing := fun loc decoded =>
+      match lsts.find? (·.1 == loc) with
+      | none => MISS
+      | some (_, b) =>
+        let esc := C07.htmlEscape decoded
+        let b := replaceFirst t1 ("<title>/".toUTF8.toList ++ esc ++ "</title>".toUTF8.toList) b
+        replaceFirst h1 ("<h1>/".toUTF8.toList ++ esc ++ "</h1>".toUTF8.toList) b }
+
+def evalFs (p : Pending) (glob : Oracle) (obsToks : List String) : String :=
+  let ora : Oracle := { urls := glob.urls ++ p.ora.urls, pages := glob.pages ++ p.ora.pages, misc := p.ora.misc }
+  let env := ora.env
+  let root := (p.toks.findSome? fun t => match fields t with | ["root", r] => some (unhex r) | _ => none).getD []
+  let evs : List Event := p.toks.filterMap fun t => match fields t with | ["root", _] => none | _ => parseEvent t
+  let fe := fsEnvOf ora root
   let mlog := (FsHandler.run env fe evs).sock.log
   let ilog := (obsToks.filter (· != "end")).filterMap parseObs
   let badTok := obsToks.filter (fun t => t != "end" && (parseObs t).isNone)
@@ -409,6 +411,46 @@ def evalProxy (p : Pending) (glob : Oracle) (obsToks : List String) : String :=
   let head := s!"RES {p.prop} {p.id} eq={b eq} hm={b hm} hi={b hi} miss={b miss} crash={b (obsToks.contains "crash")}"
   if eq && hi && hm && !miss then head else head ++ " | " ++ showLog pm ++ " | " ++ showLog pi
 
+/-! language `life` -/
+
+def evalLife (p : Pending) (glob : Oracle) (obsToks : List String) : String :=
+  let ora : Oracle := { urls := glob.urls ++ p.ora.urls, pages := glob.pages ++ p.ora.pages, misc := p.ora.misc }
+  let env := ora.env
+  let root := (p.toks.findSome? fun t => match fields t with | ["root", r] => some (unhex r) | _ => none).getD []
+  let kind := (p.toks.findSome? fun t => match fields t with | ["kind", k] => some k | _ => none).getD "fs"
+  let evs : List Life.LEv := p.toks.filterMap fun t =>
+    match fields t with
+    | ["root", _] => none | ["kind", _] => none
+    | ["killserver"] => some .killServer
+    | _ => (parseEvent t).map .ev
+  let fe := fsEnvOf ora root
+  -- the harness ends every scenario the same way: both sides closed, then four turns
+  let tailEvs : List Life.LEv := [.ev .peerClose, .ev .ackAll, .ev .turn, .ev .turn, .ev .turn, .ev .turn]
+  let body := Life.run env fe evs
+  -- the closing events are not marked in the harness: run them on the model without markers
+  let fin := tailEvs.foldl (fun st e =>
+      let before := st.fs.sock.log.length
+      let st' := Life.step env fe st e
+      -- drop the marker the model logged for this unmarked event
+      let added := st'.fs.sock.log.drop before
+      let kept := added.filter fun o => match o with | .ev _ => false | _ => true
+      { st' with fs := { st'.fs with sock := { st'.fs.sock with log := st.fs.sock.log ++ kept } } }) body
+  let mlog := body.fs.sock.log ++ [Obs.misc 30 [UInt8.ofNat (Life.live fin)], Obs.misc 31 [0]]
+  let ilog := (obsToks.filter (· != "end")).filterMap parseObs
+  let badTok := obsToks.filter (fun t => t != "end" && (parseObs t).isNone)
+  let keepR (o : Obs) : Bool := match o with | .del => false | .dc => false | .hp => false | .rcf => false | .rr => false | .bw _ => false | _ => true
+  let pm := mergeW (mlog.filter keepR)
+  let pi := mergeW (ilog.filter keepR)
+  -- for handler kinds without a model (the slot handler) only the predicate is evaluated
+  let eq := kind == "slot" || pm == pi
+  let hm := kind == "slot" || C10.holds mlog
+  let hi := C10.holds ilog
+  let miss := (kind != "slot" && containsMiss mlog) || !badTok.isEmpty
+  let b (x : Bool) := if x then "1" else "0"
+  let head := s!"RES {p.prop} {p.id} eq={b eq} hm={b hm} hi={b hi} miss={b miss} crash={b (obsToks.contains "crash")}"
+  if eq && hi && hm && !miss then head else head ++ " | " ++ showLog pm ++ " | " ++ showLog pi ++ " | " ++
+    " ".intercalate ((ora.misc.filter fun f => f.head? == some "leak").map fun f => ":".intercalate f)
+
 partial def loop (h : IO.FS.Stream) (glob : Oracle) (cur : Pending) : IO Unit := do
   let line ← h.getLine
   if line.isEmpty then return ()
@@ -431,6 +473,7 @@ partial def loop (h : IO.FS.Stream) (glob : Oracle) (cur : Pending) : IO Unit :=
       | "slot" => evalSlot cur glob rest
       | "lauth" => evalLauth cur rest
       | "proxy" => evalProxy cur glob rest
+      | "life" => evalLife cur glob rest
       | l => s!"RES {cur.prop} {cur.id} eq=0 hm=0 hi=0 miss=1 crash=0 | unknown language {l}"
     IO.println out
     loop h glob cur
